@@ -447,6 +447,27 @@ class Mitochondria:
         tree = ast.parse(expression, mode='eval')
         return bool(self._compute_node(tree.body))
 
+    def _check_capabilities(self, tool_name: str, tool: Tool) -> None:
+        """
+        Least-privilege gate shared by every path that runs a tool.
+
+        Raises PermissionError if the tool declares capabilities outside
+        ``allowed_capabilities`` (None means unrestricted).
+        """
+        required_caps = (
+            getattr(tool, "required_capabilities", None)
+            or getattr(tool, "capabilities", None)
+            or set()
+        )
+        required_caps = set(required_caps)
+        if self.allowed_capabilities is not None and not required_caps.issubset(self.allowed_capabilities):
+            missing = sorted(
+                (c.value if isinstance(c, Capability) else str(c)) for c in (required_caps - self.allowed_capabilities)
+            )
+            raise PermissionError(
+                f"Tool '{tool_name}' requires disallowed capabilities: {missing}"
+            )
+
     def _oxidative_phosphorylation(self, expression: str) -> Any:
         """
         Execute a registered tool.
@@ -469,19 +490,7 @@ class Mitochondria:
             raise ValueError(f"Unknown tool: {tool_name}. Available: {available}")
 
         tool = self.tools[tool_name]
-        required_caps = (
-            getattr(tool, "required_capabilities", None)
-            or getattr(tool, "capabilities", None)
-            or set()
-        )
-        required_caps = set(required_caps)
-        if self.allowed_capabilities is not None and not required_caps.issubset(self.allowed_capabilities):
-            missing = sorted(
-                (c.value if isinstance(c, Capability) else str(c)) for c in (required_caps - self.allowed_capabilities)
-            )
-            raise PermissionError(
-                f"Tool '{tool_name}' requires disallowed capabilities: {missing}"
-            )
+        self._check_capabilities(tool_name, tool)
 
         args = [self._compute_node(arg) for arg in tree.body.args]
         kwargs = {kw.arg: self._compute_node(kw.value) for kw in tree.body.keywords if kw.arg}
@@ -671,6 +680,7 @@ class Mitochondria:
 
         try:
             tool = self.tools[call.name]
+            self._check_capabilities(call.name, tool)
             result = tool.execute(**call.arguments)
             return ToolResult(
                 call_id=call.id,
